@@ -30,6 +30,7 @@
 import Y0.Lemmas.FscmEnvLaws
 import Y0.Lemmas.ScmEnvXAgree
 import Y0.Lemmas.SemPosSW
+import Y0.Lemmas.CanonVocab
 import Y0.Props.C10
 import Y0.Props.C13
 
@@ -154,15 +155,20 @@ theorem scm_den_envX_eq_env (hM : M.Compatible G) (hG : G.WF) (hr : G.Ranked) {e
     den (M.envX G) σ' e σ = den (M.env G) σ' e σ :=
   den_envX_eq_env ⟨hM, hG, hr⟩ hσ' e hsw σ hσ
 
+/-- canonicalisation keeps a well-scoped single-world expression over the nodes single-world over the nodes (it invents
+no event variable: Y0/Lemmas/CanonVocab.lean) -/
+theorem canon_swOK {G : MG Name} {o : List Var} {e e' : Expr} (hws : WellScoped e = true) (hsw : e.swOK G = true)
+    (h : canon o e = .ok e') : e'.swOK G = true := swOK_canon hws hsw h
+
 /-- **C10 for the concrete environment of a semi-Markovian model.**  For a well-scoped single-world expression over the
 nodes of `G`, canonicalisation preserves the denotation in `M.env G` — the environment in which the soundness theorems
-of ID / IDC / IDENTIFY / TRSO are stated (`hsw'`: the canonical form is again single-world over the nodes; decidable,
-`Expr.swOK`). -/
+of ID / IDC / IDENTIFY / TRSO are stated.  (The canonical form is again single-world over the nodes: `canon_swOK`.) -/
 theorem canon_den_scm (hM : M.Compatible G) (hG : G.WF) (hr : G.Ranked) {o : List Var} {e e' : Expr}
     (hws : WellScoped e = true) (hsw : e.swOK G = true) (hz : DenNZ (M.env G) σ' e) (h : canon o e = .ok e')
-    (hsw' : e'.swOK G = true) {σ : Val} (hσ : InRange (M.env G) σ) (hσ' : InRange (M.env G) σ') :
+    {σ : Val} (hσ : InRange (M.env G) σ) (hσ' : InRange (M.env G) σ') :
     den (M.env G) σ' e' σ = den (M.env G) σ' e σ := by
   have hC : XCtx M G := ⟨hM, hG, hr⟩
+  have hsw' : e'.swOK G = true := swOK_canon hws hsw h
   rw [← den_envX_eq_env hC hσ' e' hsw' σ hσ, ← den_envX_eq_env hC hσ' e hsw σ hσ]
   exact canon_den (envX_probFamily hC) hws ((denNZ_envX_iff_env hC hσ' e hsw).mpr hz) h hσ
 
@@ -191,11 +197,11 @@ theorem canonical_equal_sound_scm (hM : M.Compatible G) (hG : G.WF) (hr : G.Rank
 theorem canonical_of_sound (hM : M.Compatible G) (hG : G.WF) (hr : G.Ranked) {ordering : Option (List Var)}
     {e e' : Expr} (target : Val → Rat) (hsound : ∀ σ, den (M.env G) σ' e σ = target σ)
     (hws : WellScoped e = true) (hsw : e.swOK G = true) (hz : DenNZA (M.env G) σ' e)
-    (h : canonicalize e ordering = .ok e') (hsw' : e'.swOK G = true)
+    (h : canonicalize e ordering = .ok e')
     {σ : Val} (hσ : InRange (M.env G) σ) (hσ' : InRange (M.env G) σ') :
     den (M.env G) σ' e' σ = target σ := by
   rw [← hsound σ]
-  exact canon_den_scm hM hG hr hws hsw (denNZ_of_denNZA e hz) h hsw' hσ hσ'
+  exact canon_den_scm hM hG hr hws hsw (denNZ_of_denNZA e hz) h hσ hσ'
 
 /-- `M.env G` itself violates `ProbFamily`: marginal consistency fails across worlds (and it cannot be repaired by
 restricting the model: the failing conjunction mentions two different, perfectly well-formed worlds) -/
@@ -302,9 +308,10 @@ models are positive, so for a well-scoped single-world expression over the nodes
 canonicalisation preserves the denotation in `M.env G` -/
 theorem canon_den_scm_positive {M : Scm} {G : MG Name} {σ' : Val} (hM : M.Compatible G) (hG : G.WF) (hr : G.Ranked)
     {o : List Var} {e e' : Expr} (hws : WellScoped e = true) (hsw : e.swOK G = true) (hzfd : e.zfd = true)
-    (h : canon o e = .ok e') (hsw' : e'.swOK G = true) {σ : Val} (hσ : InRange (M.env G) σ)
+    (h : canon o e = .ok e') {σ : Val} (hσ : InRange (M.env G) σ)
     (hσ' : InRange (M.env G) σ') : den (M.env G) σ' e' σ = den (M.env G) σ' e σ := by
   have hC : XCtx M G := ⟨hM, hG, hr⟩
+  have hsw' : e'.swOK G = true := swOK_canon hws hsw h
   rw [← den_envX_eq_env hC hσ' e' hsw' σ hσ, ← den_envX_eq_env hC hσ' e hsw σ hσ]
   exact canon_den_positiveSW (envX_probFamily hC) (Scm.envX_positiveSW hC) hws hzfd (eventVars_of_swOK e hsw) h hσ hσ'
 
